@@ -236,9 +236,8 @@ class VZMap(FeatureNormalizer):
         xi = x[self.i]
         fac = dfdy * self.scale * self.gamma
         fac /= (1 + self.gamma * (xi + xi * xi)) ** 2
-        dfdx[self.i] += fac
-        dfdx[self.i] += fac * (self.gamma + 1) * xi
-        dfdx[self.i] += fac * (self.gamma - 1) * xi * (3 * xi + 2 * xi * xi)
+        # d/dxi of (xi + xi^2), for any gamma
+        dfdx[self.i] += fac * (1 + 2 * xi)
 
     def as_dict(self):
         return {
